@@ -157,8 +157,9 @@ def run(ctx) -> None:
         good = f is not None and f.node.value is not None and u(f.node.value) == "VersionField"
         ctx.check(good, "C17.R2", f"{q}.version", c.module.path, c.node.lineno,
                   f"{q}.version must default to VersionField (serialization_version)", c.node if f is None else f.node)
-        gv = c.methods.get("get_version")
-        ok = gv is not None and any(isinstance(n, ast.Attribute) and n.attr == "version" for n in ast.walk(gv))
+        gv = c.find_method("get_version")[1]          # (possibly shared through a mixin: judged as this class runs it)
+        gvc = ctx.cfn(f"{mod}.{q}.get_version") if gv is not None else None
+        ok = gv is not None and any(isinstance(n, ast.Attribute) and n.attr == "version" for n in ast.walk(gvc))
         ctx.check(ok, "C17.R2", f"{q}.get_version", c.module.path, (gv or c.node).lineno,
                   f"{q}.get_version must read the version field of a default instance", gv)
     for q in ("Extension", "Package"):
@@ -297,7 +298,7 @@ def r4_config_plumbing(ctx) -> None:
     prog = ctx.program
     for mn, cname in (("hugr._serialization.serial_hugr", "SerialHugr"), ("hugr._serialization.testing_hugr", "TestingHugr")):
         c = prog.cls(f"{mn}.{cname}")
-        m = c.methods.get("_pydantic_rebuild")
+        m = c.find_method("_pydantic_rebuild")[1]
         if m is None:
             ctx.broken(f"anchor vanished: {cname}._pydantic_rebuild")
         cm = ctx.cfn(f"{mn}.{cname}._pydantic_rebuild")
